@@ -231,7 +231,7 @@ def execute_agg(ctx, case):
   os.utime(path, (1500000000, 1500000000))   # a file written in the past, like every real rules file
   RM = b.rules.RuleManager
   RM.rules_last_read = 0.0
-  settings = c05.FakeSettings(REPLICATION_FACTOR=case['rf'], DIVERSE_REPLICAS=case['diverse'], ROUTER_HASH_TYPE=case['hash'],
+  settings = c05.FakeSettings(REPLICATION_FACTOR=case['rf'], DIVERSE_REPLICAS=case['diverse'], ROUTER_HASH_TYPE=c05.as_configured(case['hash']),
                               CACHE_METRIC_NAMES_MAX=0, CACHE_METRIC_NAMES_TTL=0)
   settings['aggregation-rules'] = path
   cls = b.routers.DatapointRouter.plugins.get(case['router'])
